@@ -88,6 +88,15 @@ pub fn caller_spec(idx: usize) -> CallerSpec {
     CallerSpec { opcode, request_body, response_body: resp, response_opcode: if idx == 1 { OP_ERROR } else { OP_RESULT } }
 }
 
+/// caller `idx` whose response body is `size` bytes of a position-dependent pattern (for bodies larger than the reader's
+/// initial 32 KiB allocation)
+pub fn caller_spec_big(idx: usize, size: usize) -> CallerSpec {
+    let mut s = caller_spec(idx);
+    s.response_body = (0..size).map(|i| ((i as u32).wrapping_mul(31).wrapping_add(7) >> 2) as u8).collect();
+    s.response_opcode = OP_RESULT;
+    s
+}
+
 pub type Outcome = Result<hook::RawResponse, hook::SendError>;
 
 pub struct Caller {
@@ -340,11 +349,15 @@ pub fn judge_completed(idx: usize, c: &Caller, out: &Outcome) -> Result<String, 
                 ));
             }
             if resp.body != c.spec.response_body || resp.opcode != c.spec.response_opcode {
+                let show = |b: &[u8]| -> String {
+                    if b.len() <= 48 { format!("{:?}", String::from_utf8_lossy(b)) } else { format!("{} bytes starting {}", b.len(), vcore::hex(&b[..16])) }
+                };
+                let first_diff = resp.body.iter().zip(c.spec.response_body.iter()).position(|(x, y)| x != y).unwrap_or(resp.body.len().min(c.spec.response_body.len()));
                 return Err(format!(
-                    "misdelivery:foreign-response|caller{idx} received body {:?} (opcode {:#x}) - the peer answered its request with {:?} (opcode {:#x})",
-                    String::from_utf8_lossy(&resp.body),
+                    "misdelivery:foreign-response|caller{idx} received body {} (opcode {:#x}) - the peer answered its request with {} (opcode {:#x}); the two agree on the first {first_diff} bytes",
+                    show(&resp.body),
                     resp.opcode,
-                    String::from_utf8_lossy(&c.spec.response_body),
+                    show(&c.spec.response_body),
                     c.spec.response_opcode
                 ));
             }
@@ -400,7 +413,7 @@ pub fn audit(first: &Result<(), String>, first_trace: &[String], rerun: &dyn Fn(
                 }
             }
             Some((Err(e), _)) => Audit::FlakyViolation { what: e, violating_runs: 1, runs: 2 },
-            None => Audit::FlakyViolation { what: "panic|a replay of a passing choice sequence panicked".into(), violating_runs: 1, runs: 2 },
+            None => Audit::FlakyViolation { what: panic_complaint("replay of a passing choice sequence", "panic"), violating_runs: 1, runs: 2 },
         },
         Err(e) => {
             let key = split_key(e).0;
@@ -411,7 +424,7 @@ pub fn audit(first: &Result<(), String>, first_trace: &[String], rerun: &dyn Fn(
                 let again = rerun();
                 let same = match &again {
                     Some((Err(e2), _)) => split_key(e2).0 == key,
-                    None => key == "panic",
+                    None => key.starts_with("panic"),
                     _ => false,
                 };
                 if same {
@@ -425,4 +438,19 @@ pub fn audit(first: &Result<(), String>, first_trace: &[String], rerun: &dyn Fn(
             Audit::Diverged(format!("a violation ({key}) did not show again in 64 replays of the same choice sequence"))
         }
     }
+}
+
+/// Turn a caught panic into an oracle complaint. A panic whose location is inside the driver crates (or inside a
+/// dependency the driver called) is a violation with the stable key `panic:<source file>`; a panic inside harness code
+/// is a machinery error (exit 2), never a verdict.
+pub fn panic_complaint(context: &str, msg: &str) -> String {
+    let loc = vcore::last_panic_location();
+    let file = loc.rsplit_once(':').map(|(f, _)| f).unwrap_or(&loc).to_string();
+    let in_driver = ["/scylla/src/", "/scylla-cql/", "/scylla-cql-core/", "/scylla-macros/"].iter().any(|p| file.contains(p));
+    let in_harness = ["/h-drv/", "/vasync/", "/vcore/", "/cqlref/", "/h-cql/"].iter().any(|p| file.contains(p));
+    if in_harness && !in_driver {
+        vcore::machinery_error(&format!("panic in harness code ({context}): {msg} at {loc}"));
+    }
+    let site = if in_driver { file.rsplit('/').next().unwrap_or("driver").to_string() } else { "dependency".to_string() };
+    format!("panic:{site}|{context}: the driver panicked: {msg} at {loc}")
 }
